@@ -277,10 +277,18 @@ theorem readback_deps {i : Nat} {n v f : Nat} {g : Ctx → List Dep} {al : Bool}
 theorem readback_provides : getDependencies (hdrOf x) IndexTag.RPMTAG_PROVIDENAME IndexTag.RPMTAG_PROVIDEFLAGS IndexTag.RPMTAG_PROVIDEVERSION =
     .ok ((allProvides x.c).map Dep.toAcc) ∧ x.c.provides <+: allProvides x.c :=
   ⟨readback_deps x (i := 38) (g := fun x => allProvides x.c) rfl rfl rfl, ⟨_, rfl⟩⟩
+theorem prefix_pushFeature {l reqs : List Dep} (h : l <+: reqs) (u : Bool) (f v : Bytes) : l <+: pushFeature reqs u f v := by
+  unfold pushFeature; split
+  · exact h.trans (List.prefix_append _ _)
+  · exact h
+theorem requires_prefix_base (c : Cfg) : c.requires <+: baseRequires c := by
+  unfold baseRequires; simp only [List.append_assoc]; exact List.prefix_append _ _
+theorem base_prefix_all (c : Cfg) : baseRequires c <+: allRequires c := by
+  unfold allRequires
+  exact prefix_pushFeature (prefix_pushFeature (prefix_pushFeature (prefix_pushFeature (List.prefix_refl _) _ _ _) _ _ _) _ _ _) _ _ _
 theorem readback_requires : getDependencies (hdrOf x) IndexTag.RPMTAG_REQUIRENAME IndexTag.RPMTAG_REQUIREFLAGS IndexTag.RPMTAG_REQUIREVERSION =
     .ok ((allRequires x.c).map Dep.toAcc) ∧ x.c.requires <+: allRequires x.c :=
-  ⟨readback_deps x (i := 52) (g := fun x => allRequires x.c) rfl rfl rfl, by
-    unfold allRequires; simp only [List.append_assoc]; exact List.prefix_append _ _⟩
+  ⟨readback_deps x (i := 52) (g := fun x => allRequires x.c) rfl rfl rfl, (requires_prefix_base x.c).trans (base_prefix_all x.c)⟩
 theorem readback_recommends : getDependencies (hdrOf x) IndexTag.RPMTAG_RECOMMENDNAME IndexTag.RPMTAG_RECOMMENDFLAGS IndexTag.RPMTAG_RECOMMENDVERSION =
     .ok ((allRecommends x.c).map Dep.toAcc) ∧ x.c.recommends <+: allRecommends x.c :=
   ⟨readback_deps x (i := 58) (g := fun x => allRecommends x.c) rfl rfl rfl, by
